@@ -8,8 +8,11 @@ import (
 	"net"
 	"os"
 	"path/filepath"
+	"runtime"
 	"sort"
+	"strings"
 	"sync"
+	"sync/atomic"
 	"time"
 
 	"github.com/btcsuite/btcd/chainhash/v2"
@@ -116,17 +119,57 @@ type Client struct {
 	Net *Net
 }
 
+// BanFaultDB fails every database update issued by banman's BanIPNet while
+// Fail is set: the state in which a ban cannot be recorded (I/O error).
+type BanFaultDB struct {
+	walletdb.DB
+	Fail  atomic.Bool
+	Count atomic.Int64 // ban writes refused
+}
+
+func (d *BanFaultDB) Update(f func(tx walletdb.ReadWriteTx) error, reset func()) error {
+	if d.Fail.Load() && calledFrom("banman.(*banStore).BanIPNet") {
+		d.Count.Add(1)
+		return errors.New("netsim: injected ban store write fault")
+	}
+	return d.DB.Update(f, reset)
+}
+
+func calledFrom(fn string) bool {
+	pcs := make([]uintptr, 32)
+	n := runtime.Callers(2, pcs)
+	frames := runtime.CallersFrames(pcs[:n])
+	for {
+		fr, more := frames.Next()
+		if strings.HasSuffix(fr.Function, fn) {
+			return true
+		}
+		if !more {
+			return false
+		}
+	}
+}
+
+// BanFault makes NewClient wrap the database in a BanFaultDB with Fail set
+// (read under cfgMu by the next NewClient call of this goroutine's scenario).
+type ClientOpts struct{ BanFault bool }
+
 // cfgMu serialises the window in which package-level neutrino variables are
 // set and read by NewChainService.
 var cfgMu sync.Mutex
 
 // NewClient opens (or creates) the database in dir and builds a ChainService
 // that connects to the given node addresses only.
-func NewClient(dir string, nt *Net, peers []string, retry time.Duration, persist bool) (*Client, error) {
+func NewClient(dir string, nt *Net, peers []string, retry time.Duration, persist bool, opts ...ClientOpts) (*Client, error) {
 	dbPath := filepath.Join(dir, "neutrino.db")
 	db, err := walletdb.Create("bdb", dbPath, true, 10*time.Second, false)
 	if err != nil {
 		return nil, err
+	}
+	if len(opts) > 0 && opts[0].BanFault {
+		fdb := &BanFaultDB{DB: db}
+		fdb.Fail.Store(true)
+		db = fdb
 	}
 	cfgMu.Lock()
 	old := neutrino.ConnectionRetryInterval
